@@ -227,7 +227,7 @@ impl Workload {
             short_ch: r.below(channels as u64) as u8,
             fixed_len: None,
             tiny_mode: r.below(4) as u8,
-            lead_pattern_p: if r.chance(0.3) { 0.15 } else { 0.0 },
+            lead_pattern_p: if r.chance(0.4) { 0.25 } else { 0.0 },
         }
     }
 
@@ -259,7 +259,7 @@ impl Workload {
                     // two-channel variant: the channel's own parent is 256+ packets back while
                     // another channel's Reliable packet is the (near) window parent
                     let ch2 = (ch + 1 + r.below(self.channels as u64 - 1) as u8) % self.channels;
-                    let far = *r.pick(&[250u32, 255, 256, 257, 300]);
+                    let far = *r.pick(&[128u32, 200, 250, 254, 254, 255, 256, 300]);
                     for _ in 0..far {
                         plan.push(t, 0x4000_0000 + tag, Op::Send { ep, to, ch: ch2, mode: other, len: r.range(12, 60) as u32, tag });
                         tag += 1;
